@@ -26,7 +26,7 @@ ASSUMPTIONS = ["Linux/epoll event backend: no direct knotes (unregistration alwa
 
 TYPES = ["timer", "data_add", "read", "write", "signal"]
 SCENS = ["pre_activate", "post_activate", "from_handler", "from_target_item", "other_thread", "twice", "cancel_and_wait",
-         "cancel_and_wait_pre", "caw_plus_second", "after_hangup", "while_suspended"]
+         "cancel_and_wait_pre", "caw_plus_second", "after_hangup", "while_suspended", "from_registration_handler"]
 CANCELED, WAITER, NEEDS_EVENT, DELETED = 1 << 28, 1 << 29, 1 << 30, 1 << 31
 
 
@@ -169,7 +169,7 @@ def analyse(text, label, seed, permille):
 
 
 def correspond(ctx):
-    plan = [(0, 55), (150, 110), (400, 55)] if ctx.tier == "quick" else [(0, 220), (150, 440), (400, 220), (80, 220)]
+    plan = [(0, 60), (150, 120), (400, 60)] if ctx.tier == "quick" else [(0, 240), (150, 480), (400, 240), (80, 240)]
     fails, mism, alltr, total = [], [], [], {}
     for i, (permille, rounds) in enumerate(plan):
         seed = ctx.seed * 1000 + i
